@@ -888,7 +888,7 @@ PROBE_START = 2048
 PROBE_MAX = 262144          # characters; a definition may have up to 1 MB
 PROBE_T_MIN = 0.15          # CPU seconds at which the measurements are well above timer resolution
 PROBE_RATIO = 3.4           # per doubling: linear = 2, n log n ~ 2.1, quadratic = 4 (3.85-4.15 measured)
-PROBE_FIXED = {'many-tasks': 32768}   # thorough only: start size where the quadratic graph checks dominate
+PROBE_FIXED = {'many-tasks': 65536}   # thorough only: a size where the quadratic graph checks dominate; one doubling
 
 
 def scaling_probe(ctx, st, name, make, start=None):
@@ -906,6 +906,14 @@ def scaling_probe(ctx, st, name, make, start=None):
         n *= 2
     if t1 is None:
         return {'family': name, 'verdict': 'fast', 'n': n // 2, 't': round(t, 4)}
+    if start:
+        # expensive family measured at one fixed doubling (n -> 2n), judged on that ratio alone
+        sp = st['sp']
+        text2 = make(2 * n)
+        (site, line), t2 = E.hot_site(lambda: sp.get_workflow_list_spec_from_yaml(text2, validate=True), max(0.01, t1 / 10))
+        r1 = t2 / t1
+        return {'family': name, 'verdict': 'superlinear' if r1 > PROBE_RATIO else 'linear', 'n': n,
+                't': [round(t1, 3), round(t2, 3)], 'ratios': [round(r1, 2)], 'site': site, 'line': line}
     t2, det = _probe_cpu(st, make(2 * n), 1)
     if t2 is None:
         return {'family': name, 'verdict': 'cpu-limit', 'n': 2 * n, 'detail': det}
@@ -933,8 +941,8 @@ def run_probes(ctx, st, only=None):
         ctx.cov.setdefault('scaling_probes', []).append({k: v for k, v in res.items() if k != 'detail'})
         if res['verdict'] == 'superlinear':
             ctx.violation('validation time grows super-linearly with the size of the definition (family %s: CPU %s s at '
-                          '%d, %d, %d characters, ratios %s per doubling; a definition may have 1 MB), hot spot %s [%s]' % (
-                              name, res['t'], res['n'], 2 * res['n'], 4 * res['n'], res['ratios'], res['site'], res['line']),
+                          '%s characters, ratios %s per doubling; a definition may have 1 MB), hot spot %s [%s]' % (
+                              name, res['t'], [res['n'] << i for i in range(len(res['t']))], res['ratios'], res['site'], res['line']),
                           {'kind': 'probe', 'family': name, 'result': res},
                           {'kind': 'superlinear-time', 'family': name})
         elif res['verdict'] == 'cpu-limit':
